@@ -98,6 +98,7 @@ type lineLookup struct {
 	lineOffsets []int
 	lastOffset  int64
 	lastIndex   int
+	lineBase    int // lines removed in front of the content before it was indexed
 }
 
 func newLineLookup(content []byte) *lineLookup {
@@ -122,7 +123,7 @@ func (ll *lineLookup) Line(offset int64) int {
 		}
 		ll.lastIndex = idx
 		ll.lastOffset = offset
-		return idx + 1
+		return idx + 1 + ll.lineBase
 	}
 
 	idx := sort.Search(len(ll.lineOffsets), func(i int) bool {
@@ -133,7 +134,7 @@ func (ll *lineLookup) Line(offset int64) int {
 	}
 	ll.lastIndex = idx
 	ll.lastOffset = offset
-	return idx + 1
+	return idx + 1 + ll.lineBase
 }
 
 // AIDEV-NOTE: mjml-spec-structure; MJML document structure per official spec
@@ -150,6 +151,7 @@ func ParseMJML(mjmlContent string) (*MJMLNode, error) {
 	// AIDEV-NOTE: comment-preservation; Preserve all XML comments for MRML compatibility
 	// MRML preserves regular XML comments and wraps them with MSO conditionals
 	processedContent := stripNonMSOComments(mjmlContent)
+	strippedLines := strings.Count(mjmlContent, "\n") - strings.Count(processedContent, "\n")
 
 	// Pre-process HTML entities that XML parser doesn't handle
 	processedContent = preprocessHTMLEntities(processedContent)
@@ -159,6 +161,9 @@ func ParseMJML(mjmlContent string) (*MJMLNode, error) {
 
 	contentBytes := []byte(processedContent)
 	lookup := newLineLookup(contentBytes)
+	// Line numbers are looked up in the pre-processed content; comments and blank lines stripped
+	// in front of the root element would otherwise shift every reported line upwards.
+	lookup.lineBase = strippedLines
 
 	decoder := xml.NewDecoder(bytes.NewReader(contentBytes))
 	root, err := parseNode(decoder, xml.StartElement{}, lookup, 0, contentBytes)
